@@ -170,6 +170,53 @@ void h_group_count(void)
     V_ASSERT(ok, "groups: the last group is completed with the dummy symbol, nothing else is written (no write beyond the group)"); }
   if (nm0 == GC_NM_MAX) V_CANARY("largest stored block");
 }
+
+/* ================= transmit(): the block header (C02: block magic, CRC field, "no block is randomised", primary index) ================= */
+void h_block_header(void)
+{
+  struct encoder_state *s = &W2.e;
+  V_IN(uint32_t, crc);
+  V_IN(uint32_t, idx);
+  uint32_t out[4] = { 0, 0, 0, 0 }; uint32_t *p = out; uint64_t b = 0; unsigned k = 0;
+  V_ASSUME(idx < (1u << 24));                  /* primary index < block size <= 900000 */
+  s->block_crc = crc; s->bwt_idx = idx;
+#include "src/extract/block_header.inc"
+  V_ASSERT(p == out + 3 && k == 9, "block header: 96 bits are written out, 9 bits stay buffered");
+  uint32_t w0 = ntohl(out[0]), w1 = ntohl(out[1]), w2 = ntohl(out[2]);
+  V_ASSERT(w0 == 0x31415926u && (w1 >> 16) == 0x5359u, "block header: begins with the 48-bit block magic 0x314159265359");
+  V_ASSERT((((w1 & 0xFFFFu) << 16) | (w2 >> 16)) == (crc ^ 0xFFFFFFFFu), "block header: the stored block CRC is the complement of the running CRC (the value combine_crc/do_reorder use)");
+  V_ASSERT(((w2 >> 15) & 1u) == 0, "block header: the randomisation bit is 0 (no block is randomised)");
+  V_ASSERT((((w2 & 0x7FFFu) << 9) | (uint32_t)(b & 0x1FFu)) == idx, "block header: followed by the 24-bit primary index");
+  V_CANARY("block header");
+}
+
+
+/* ================= transmit(): table count, selector count, unary selector codes (C02: "2-6 prefix tables ... at most 18002 selectors") ================= */
+#define SS_N 3          /* selectors in the stand-in block */
+void h_selector_send(void)
+{
+  struct es_standin *s = &W;
+  V_IN(unsigned, nt);
+  V_IN(unsigned, k0);
+  V_IN_ARR(uint8_t, mv, SS_N);
+  uint32_t out[4] = { 0, 0, 0, 0 }; uint32_t *p = out; uint64_t b = 0; unsigned k, t, v, i; uint8_t *sp;
+  V_ASSUME(nt >= MIN_TREES && nt <= MAX_TREES && (k0 == 9 || k0 == 25));          /* 9 bits buffered after the header, plus 16 for the map's first level */
+  for (i = 0; i < SS_N; i++) { V_ASSUME(mv[i] < nt); s->u.s.selectorMTF[i] = mv[i]; }       /* MTF positions are below the table count (encode.selector_mtf.*) */
+  s->u.s.num_trees = nt; s->u.s.num_selectors = SS_N;
+  k = k0 + 0; b = 0;          /* the earlier bits are zero here: only what this section appends is examined */
+  k = (k0 == 9 ? 9 : 25);
+#include "src/extract/selector_send.inc"
+  /* rebuild the appended bit string: everything written to out[] plus the k buffered bits, after the first k0 bits */
+  unsigned total = 32 * (unsigned)(p - out) + k, pos = k0, j; int ok = 1;
+  uint8_t bits[128]; for (i = 0; i < 128; i++) bits[i] = 0;
+  for (i = 0; i < 128; i++) if (i < total) { unsigned w = i / 32; bits[i] = (w < (unsigned)(p - out)) ? (ntohl(out[w]) >> (31 - i % 32)) & 1u : (unsigned)((b >> (k - 1 - (i - 32 * (unsigned)(p - out)))) & 1u); }
+  { unsigned x = 0; for (j = 0; j < 3; j++) x = (x << 1) | bits[pos++]; V_ASSERT(x == nt, "3-bit table count"); }
+  { unsigned x = 0; for (j = 0; j < 15; j++) x = (x << 1) | bits[pos++]; V_ASSERT(x == SS_N, "15-bit selector count"); }
+  for (i = 0; i < SS_N; i++) { for (j = 0; j < 6; j++) if (j < mv[i]) { if (bits[pos++] != 1) ok = 0; } if (bits[pos++] != 0) ok = 0; }
+  V_ASSERT(ok && pos == total, "each selector is sent in unary: its MTF position in ones, then a zero; nothing else is appended");
+  V_CANARY("selectors sent");
+}
+
 #ifdef VERIF_REPLAY
 int main(void) { HARNESS(); puts("REPLAY-PASS"); return 0; }
 #endif
